@@ -382,6 +382,18 @@ theorem containsAt_spec : ∀ (ls : List α) (cs : List (Level α)) (d acc : Nat
       · exact hm
 end
 
+/-- `__contains__` (with its depth check) is exactly membership among the tuples, for every key -/
+theorem containsKey_spec {t : Level α} {d : Nat} (hw : WF d t) (key : List α) :
+    t.containsKey d key = true ↔ key ∈ t.tuples := by
+  unfold containsKey
+  by_cases hl : key.length = d
+  · rw [if_neg (by simpa using hl)]
+    exact contains_spec t d hw key hl
+  · rw [if_pos (by simpa using hl)]
+    simp only [Bool.false_eq_true, false_iff]
+    intro hm
+    exact hl (tuples_depth t d hw key hm)
+
 end lookup
 
 end Level
